@@ -50,9 +50,17 @@ fn to_phys(l: u64) -> u64 {
     l + 4 * (l / PAYLOAD)
 }
 
+/// Bytes of a write: by seed class all zero (what a fresh page holds anyway), all 0xFF, or
+/// non-zero pseudo-random bytes (so that zero fill is distinguishable from data).
 fn content(n: usize, seed: u64) -> Vec<u8> {
-    let mut r = Rng::new(seed);
-    (0..n).map(|_| 1 + r.below(255) as u8).collect()
+    match seed % 8 {
+        7 => vec![0u8; n],
+        6 => vec![0xFFu8; n],
+        _ => {
+            let mut r = Rng::new(seed);
+            (0..n).map(|_| 1 + r.below(255) as u8).collect()
+        }
+    }
 }
 
 fn alphabet() -> Vec<WOp> {
@@ -63,7 +71,10 @@ fn alphabet() -> Vec<WOp> {
         WOp::Write { n: 1020, seed: 4 },
         WOp::Write { n: 1021, seed: 5 },
         WOp::Write { n: 2041, seed: 6 },
-        WOp::WriteAll { n: 3, seed: 7 },
+        WOp::WriteAll { n: 3, seed: 9 + 8 },
+        // all-zero data: 4 bytes and a whole page payload
+        WOp::WriteAll { n: 4, seed: 7 },
+        WOp::WriteAll { n: 1020, seed: 15 },
         WOp::WriteAll { n: 1020, seed: 8 },
         WOp::WriteAll { n: 1030, seed: 9 },
         WOp::WriteAll { n: 2040, seed: 10 },
@@ -495,7 +506,7 @@ impl Prop for C11 {
         Meta {
             level: "exploration",
             rule: format!(
-                "run index i < {} enumerates every PagedWriter history of length <= 3 over a 20-operation boundary alphabet \
+                "run index i < {} enumerates every PagedWriter history of length <= 3 over a 22-operation boundary alphabet (writes of non-zero, all-zero and all-0xFF data) \
                  (write/write_all of 1,3,4,1019..1021,1030,2040,2041 bytes; physical_seek to 0,48,1019,1021(checksum),1024,end+1; flush; align; size; position); \
                  larger indices draw histories of length <= 40 with boundary-biased arguments; each under a seeded device chunk schedule; \
                  then a PagedReader history over the result. Oracle after every operation: byte-vector model. \
